@@ -1,6 +1,7 @@
 package main
 
 import (
+	"os"
 	"fmt"
 	"go/token"
 	"go/types"
@@ -143,6 +144,9 @@ func (e *Enc) applyCall(v ssa.Value, c *ssa.CallCommon, args []TV, in ssa.Instru
 		if fn == nil || fn.Pkg == nil || !e.w.isRepoPkg(fn.Pkg.Pkg.Path()) {
 			pure = key != "" && e.w.isPureExternal(key)
 		} else if e.w.inferredPure[key] {
+			if os.Getenv("GOVC_NOINLINE") == "" && e.inlineCall(v, fn, args, guard) {
+				return
+			}
 			pure = true
 			e.inferredUsed[key] = true
 		}
